@@ -4,7 +4,7 @@
    [n] is fuel for the repetitions and for the nesting of type names; [parse_toks] supplies the
    length of the token list, which is always enough. *)
 From Coq Require Import String List Bool Arith.
-From Aldrin Require Import Schema.Ast Schema.Token.
+From Aldrin Require Import Schema.Ast Schema.Token Schema.GrammarTie.
 Import ListNotations.
 Open Scope string_scope.
 
